@@ -94,6 +94,7 @@ let handle ws = match ws with
         (match field with
          | "ok" ->
            Buffer.add_char b (verdict iv aad st 0 true);
+           if not str then Buffer.add_char b (verdict iv aad st 0 true);   (* the same call with out == in *)
            if str then begin
              for i = 1 to 3 do Buffer.add_char b (v true (dec_str iv aad st i)) done;
              Buffer.add_char b (v true (dec_whole iv aad st))
